@@ -391,6 +391,9 @@ func selectedCred(cc, sc world.Cfg) string {
 	if sni == "" {
 		sni = "server.test"
 	}
+	if sc.GetCertSwitch[1] != "" {
+		return sc.GetCertSwitch[1] // what the callback hands out when the flight is built
+	}
 	if sc.GetCertSNI != "" {
 		return sc.GetCertSNI
 	}
